@@ -2,7 +2,7 @@ package main
 
 // Wire format of a case (shared by `gen`, `drive` and the Lean monitor m_pipeline):
 //
-//	graph <caseid> seed=<u64> hold=<0|1> [steer=<k>:<s|S|f|F>,…]
+//	graph <caseid> seed=<u64> hold=<0|1> [steer=<k>:<s|S|f|F>,…] [scope=<kind>]
 //	task <id> <role> d=<depth> x=<ctx> w=<ids|-> b=<cmds|->
 //	try <k> owner=<p>:<i> body=<b> succ=<id|-> fail=<id|-> fin=<id|->
 //	top <ids|->
@@ -13,6 +13,19 @@ package main
 // s / S hold the first command of the selected (fail / success) handler until the finally handler
 // has started / has closed; f / F hold the first command of the finally handler until the selected
 // handler has started / has closed.
+//
+// scope= says in WHICH scope the scripts of the case run (drive.go, newSession; absent = app):
+//
+//	app    the application scope (MockupApp.Scopes().App())
+//	new    a session scope of its own: scope.New (own data, own events, own context) — what a request / session
+//	       handed to Terminal.RunString gets; the look-up of the task manager does NOT reach the application's data
+//	child  scope.NewChild(app): data scope is a child of the application's, context shared with it
+//	term   the scope of the real terminal loop (termc.runLoop): isolated context, data scope SHARED with the application
+//	dapp | dnew | dchild | dterm   the same four, but the top-level scripts are run DIRECTLY by Terminal.RunLoop in the
+//	       session, one after another (no Runner.Run for them: the first pipeline command of the first script meets a
+//	       data scope without a task manager, the later scripts the manager the earlier ones left behind)
+//
+// The monitor ignores the field: the model's root context (ctx 0) is the context of the session scope.
 
 import (
 	"bufio"
@@ -43,8 +56,11 @@ const UnknownTask = 999
 // FirstGhost is the first wait id that stands for "a name that never exists".
 const FirstGhost = 900
 
-// Cmd is one command of a body: p | g | f | x | q | t | s<c> | y<k>.
+// Cmd is one command of a body: p | g | f | x | q | t | c | s<c> | y<k>.
 //
+//	c  the real `pip:clear` (bracketed by probe events): TasksUnit.Clear on the scope the command runs in, i.e. a nil
+//	   entry in the data of the body's context that shadows the task manager inherited from above; the next pipeline
+//	   command of that body creates a manager of its own.  Always returns nil: a `probe` for the monitor.
 //	x  an UNKNOWN command name: RunCommand returns "unknown command", RunLoop records the error and returns
 //	q  a TRUNCATED last command (the text ends inside a double-quoted argument or an unterminated =<<TAG
 //	   value): the reader of RunLoop records the read error and returns; only as the last command of a body
@@ -54,7 +70,7 @@ const FirstGhost = 900
 // For the monitor x and q are failing commands like f (RunLoop reacts identically: AppendError + return);
 // their `cmd` / `ret … err` events are recorded by a marker command on the line before (script.go).
 type Cmd struct {
-	Kind byte // 'p', 'g', 'f', 'x', 'q', 't', 's', 'y'
+	Kind byte // 'p', 'g', 'f', 'x', 'q', 't', 'c', 's', 'y'
 	Arg  int  // child task id for 's', try number for 'y'
 }
 
@@ -107,9 +123,39 @@ type Case struct {
 	Seed  uint64
 	Hold  bool
 	Steer map[int]byte // try number -> 's', 'S', 'f', 'F' (absent = not steered)
+	Scope string       // scope kind (see the head of this file); "" = app
 	Tasks []*Task      // index = task id
 	Tries []*Try       // index = try number
 	Top   []int
+}
+
+// scopeKinds lists every value of scope= (the first one is the default).
+var scopeKinds = []string{"app", "new", "child", "term", "dapp", "dnew", "dchild", "dterm"}
+
+func validScope(k string) bool {
+	if k == "" {
+		return true
+	}
+	for _, v := range scopeKinds {
+		if v == k {
+			return true
+		}
+	}
+	return false
+}
+
+// direct: the top-level scripts are run by Terminal.RunLoop in the session, not submitted through Runner.Run.
+func (c *Case) direct() bool { return len(c.Scope) > 1 && c.Scope[0] == 'd' }
+
+// sessionKind is the scope kind without the `d` of the direct variants.
+func (c *Case) sessionKind() string {
+	switch {
+	case c.Scope == "":
+		return "app"
+	case c.direct():
+		return c.Scope[1:]
+	}
+	return c.Scope
 }
 
 // steerString renders the steer= field ("" when the case is not steered).
@@ -169,11 +215,14 @@ func (c *Case) writeHeader(w io.Writer) {
 	if c.Hold {
 		hold = 1
 	}
+	extra := ""
 	if st := c.steerString(); st != "" {
-		fmt.Fprintf(w, "graph %s seed=%d hold=%d steer=%s\n", c.ID, c.Seed, hold, st)
-	} else {
-		fmt.Fprintf(w, "graph %s seed=%d hold=%d\n", c.ID, c.Seed, hold)
+		extra += " steer=" + st
 	}
+	if c.Scope != "" && c.Scope != "app" {
+		extra += " scope=" + c.Scope
+	}
+	fmt.Fprintf(w, "graph %s seed=%d hold=%d%s\n", c.ID, c.Seed, hold, extra)
 	for _, t := range c.Tasks {
 		cmds := make([]string, len(t.Body))
 		for i, cmd := range t.Body {
@@ -271,7 +320,7 @@ func parseCmds(s string) ([]Cmd, error) {
 		}
 		c := Cmd{Kind: f[0]}
 		switch f[0] {
-		case 'p', 'g', 'f', 'x', 'q', 't':
+		case 'p', 'g', 'f', 'x', 'q', 't', 'c':
 			if len(f) != 1 {
 				return nil, fmt.Errorf("bad command %q", f)
 			}
@@ -305,7 +354,7 @@ func readCase(sc *bufio.Scanner) (*Case, error) {
 		var err error
 		switch {
 		case f[0] == "graph":
-			if c != nil || (len(f) != 4 && len(f) != 5) {
+			if c != nil || len(f) < 4 || len(f) > 6 {
 				return nil, fmt.Errorf("bad graph line %q", line)
 			}
 			c = &Case{ID: f[1]}
@@ -314,10 +363,15 @@ func readCase(sc *bufio.Scanner) (*Case, error) {
 				if c.Seed, err = strconv.ParseUint(s, 10, 64); err == nil {
 					if h, err = field(f[3], "hold"); err == nil {
 						c.Hold = h == "1"
-						if len(f) == 5 {
-							var st string
-							if st, err = field(f[4], "steer"); err == nil {
-								c.Steer, err = parseSteer(st)
+						for _, kv := range f[4:] {
+							switch {
+							case err != nil:
+							case strings.HasPrefix(kv, "steer="):
+								c.Steer, err = parseSteer(kv[6:])
+							case strings.HasPrefix(kv, "scope="):
+								c.Scope = kv[6:]
+							default:
+								err = fmt.Errorf("unknown field %q", kv)
 							}
 						}
 					}
@@ -456,6 +510,16 @@ func (c *Case) check() error {
 			}
 			if cmd.Kind == 'y' && (cmd.Arg < 0 || cmd.Arg >= len(c.Tries)) {
 				return fmt.Errorf("case %s: task %d runs unknown try %d", c.ID, t.ID, cmd.Arg)
+			}
+		}
+	}
+	if !validScope(c.Scope) {
+		return fmt.Errorf("case %s: unknown scope kind %q", c.ID, c.Scope)
+	}
+	if c.direct() {
+		for _, id := range c.Top {
+			if len(c.Tasks[id].Wait) != 0 {
+				return fmt.Errorf("case %s: a script run directly by the terminal has no wait list (task %d)", c.ID, id)
 			}
 		}
 	}
